@@ -386,6 +386,26 @@ def run(chk):
     else:
         chk.violation("C08.eof", ae, "return self._eof and not self._buffer", "", "at_eof() reports end of stream while data is still buffered")
     hunt5_rules(chk, repo)
+    eof_resume_rule(chk, repo)
+
+
+def eof_resume_rule(chk, repo, rule="C08.flow.eof"):
+    """Rule written after seeding round 7 (seeds C08-7 and C05-7, the same change from two writers): end of stream hands every pause back.
+    After EOF _read_nowait_chunk() no longer resumes (by design: a later message's stream may have paused), so feed_eof() is the last chance
+    for this stream's pause to be lifted - and a pause is not the same as `size > high-water now`: the stream may have drained into the band
+    between the marks, or have paused on the number of buffered chunk ends.  The call is unconditional."""
+    fe = repo.func(MOD, f"{SR}.feed_eof")
+    res = [c for c in prog.calls_in(fe.node) if isinstance(c.func, ast.Attribute) and c.func.attr == "resume_reading"]
+    if not res:
+        chk.violation(rule, fe, "feed_eof()", "self._protocol.resume_reading(resume_parser=False)", "end of stream does not resume reading: a stream that was paused when its last byte arrived leaves the transport paused for the next message")
+        return
+    for c in res:
+        lits = [l.text for cl_ in PC.pc(K.stmt_of(c), raw=True) for l in cl_]
+        if not lits:
+            chk.ok(rule, c, "feed_eof() resumes reading unconditionally: whatever paused this stream (bytes over the high-water mark, now or before a partial drain, or too many buffered chunk ends) is handed back")
+        else:
+            chk.violation(rule, c, K.short(c), "unconditional self._protocol.resume_reading(resume_parser=False)",
+                          f"feed_eof() resumes reading only under `{' and '.join(lits)}`: a stream that paused on the number of buffered chunk ends (five 1-byte chunks with read_bufsize=64, 16385 chunks by default), or that was drained into the band between the water marks, is still paused at EOF and nothing resumes it afterwards - the next request on the connection is never read (server) / the next response never arrives (client), the reader blocks on an empty buffer with the transport paused")
 
 
 def hunt5_rules(chk, repo):
